@@ -9,7 +9,7 @@ CHECKS = {
  "C01": ("exploration",
    "property-based round-trip: generated (options, tree) -> backup -> restore, compared with an lstat/read snapshot oracle (proptest, shrinking)",
    "Random search over the product of backup options and source trees (names stressing the order, file sizes placed around the small-file cap and block multiples, every mode bit, pre-/post-epoch and sub-second mtimes, named owners), with a byte-exact snapshot oracle that shares no code with conserve. Exploration is the honest level: the input space is unbounded and an exact inverse exists, so a round-trip oracle decides each generated case completely.",
-   "Runs as root on tmpfs; owners restricted to ids that have names on this machine; trees <= 40 nodes, files <= 8 KiB; generated cases only, no absence claim.",
+   "Runs as root on tmpfs; owners restricted to ids that have names on this machine; generated trees <= 40 nodes (rarely 110-320 files), files <= 8 KiB (rarely to 300 KB), plus fixed scale probes per run (> 10 000 index hunks, blocks of 1-40 MiB, one 272 MiB file, one index hunk > 32 MiB); generated cases only, no absence claim.",
    "DESIGN.md 5 C01"),
  "C11": ("exploration",
    "exhaustive enumeration of path pairs/triples/strings against a reference order + property-based tree walks (proptest)",
@@ -27,19 +27,19 @@ CHECKS = {
    "Interruption = storage frozen at an operation boundary via the verif_hooks interceptor; content edits always change mtime or size.",
    "DESIGN.md 5 C02"),
  "C13": ("exploration",
-   "property-based differential decoding: after every mutating operation of generated single backups and histories an independent reader of the 0.6 format (serde_json + snap + blake2) checks every documented invariant against the model",
+   "property-based differential decoding: after every mutating operation of generated single backups and histories, and after backups of a source that changes while it is read, an independent reader of the 0.6 format (serde_json + snap + blake2) checks every documented invariant against the model",
    "The independent decoder shares no code with conserve's reader; it is run after every backup, interrupted backup, delete and gc of generated histories and single (options, tree) backups, and the address lengths are compared with the model's file sizes.",
    "Zero-length leftovers of the torn-write interruption are skipped as the documented exception.",
    "DESIGN.md 5 C13"),
  "C15": ("exploration",
    "property-based differential/metamorphic test: backup-with-excludes == list-with-excludes == restore-with-excludes == model rule, over generated trees and glob sets built from the tree's own names (proptest)",
    "Four independently obtained path sets must coincide for every generated (tree, pattern set): the independently decoded index of a backup made with the exclusions, the filtered listing and the filtered restore of a full backup, and the statement's rule evaluated by the harness.",
-   "Matching one glob against one string is delegated to the globset crate; names carry no glob metacharacters.",
+   "Matching one glob against one string is delegated to the globset crate; tree names may consist of glob metacharacters, and a pattern built from such a name is a pattern for conserve and for the oracle alike.",
    "DESIGN.md 5 C15"),
  "C16": ("exploration",
    "property-based invariant test: generated trees/histories with symlinks aimed at sentinels; invariant = lstat/ctime/inode snapshot of everything outside the destination is unchanged by restore (proptest)",
    "Symlink targets are constructed to reach sentinel files and directories beside the destination (relative chains, absolute, '..', '/'), destinations are absent/empty/pre-populated, and a second class restores an interrupted version in which a directory was replaced by a symlink. The sandbox outside the destination is snapshotted before and after including ctime and inode numbers, so any chmod/chown/utimes/write through a link is visible.",
-   "Pre-populated destinations contain no symlinks; the check runs as root so a write-through cannot be hidden by a permission error.",
+   "A destination pre-populated by the harness holds no symlinks; one pre-populated by an earlier restore (second phase: the oldest version restored with overwrite over a version in which a directory had become a symlink) does. A quarter of the restores run with one injected storage error. The check runs as root so a write-through cannot be hidden by a permission error.",
    "DESIGN.md 5 C16"),
  "C18": ("exploration",
    "property-based model comparison: generated tree + edit set; conserve's diff stream and backup change callback compared with a model diff written from the statement (proptest)",
@@ -52,12 +52,12 @@ CHECKS = {
    "Crash granularity is one transport operation plus the empty-file state of a killed write; partial writes, partial remove_dir_all and fsync ordering are not modelled.",
    "DESIGN.md 5 C03"),
  "C04": ("fault_enumeration",
-   "fault enumeration inside a property-based scenario generator: every operation of the backup's logged storage trace x 4 error kinds as a single injected failure, plus generated multi-fault plans; oracle = independent decoder + model content + restore comparison",
+   "fault enumeration inside a property-based scenario generator: every operation of the backup's logged storage trace x 4 error kinds as a single injected failure, all 16 ordered pairs of kinds on (write, following operation), plus generated multi-fault plans; oracle = independent decoder + model content + restore comparison",
    "For each generated scenario every single-fault plan over the logged trace is executed (thinned to 60 operations in quick) and generated multi-fault plans are added; the oracle decodes every band independently and compares every recorded file's reassembled bytes with the model.",
    "An injected failure has no side effect; fault granularity is one transport operation.",
    "DESIGN.md 5 C04"),
  "C05": ("fault_enumeration",
-   "model-based history generation + enumeration of every crash point and every failing read/list of the delete's logged trace; oracle = independent reference scan (referenced vs present blocks) and exact restores of kept versions",
+   "model-based history generation + enumeration of every crash point, every failing read/list and failing removals of the delete's logged trace; oracle = independent reference scan (referenced vs present blocks) and exact restores of kept versions",
    "Histories and the subset to delete are generated by proptest; the fault-free delete is judged against an independent referenced/present scan and directory diff, and for successful real deletes every crash point and every single read/list/metadata fault of the logged trace is replayed from a pristine copy, after which every remaining complete version must restore exactly.",
    "remove_dir_all of a band is one atomic operation in the model; zero-length block files are not blocks.",
    "DESIGN.md 5 C05"),
@@ -74,7 +74,7 @@ CHECKS = {
  "C09": ("fault_enumeration",
    "model-based histories for the healthy side + enumeration of every file x every damage kind for the damage side; oracle = restore comparison decides whether validate owes an error",
    "Healthy: validate (full and quick) after every step of generated histories must be silent. Damaged: for archives from generated histories every stored file is deleted, emptied, halved, overwritten and (blocks) bit-flipped in turn; whenever some complete version no longer restores exactly, validate must report.",
-   "'Reported' = Err, Monitor error or ERROR-level event; zero-length leftovers are outside the healthy side.",
+   "'Reported' = Err, Monitor error or ERROR-level event; zero-length leftovers are outside the healthy side; the quick tier damages at most 80 files per archive.",
    "DESIGN.md 5 C09"),
  "C10": ("fault_enumeration",
    "enumeration of every stored file x {delete, truncate, garbage, bit flips} over archives from generated histories; oracles = no panic / bounded listing, independent decoder decides per file entry whether it must restore exactly or must be reported",
@@ -82,12 +82,12 @@ CHECKS = {
    "Quick tier samples a third of the (file, damage) pairs per archive; hunks altered but still decodable carry only the no-crash obligation; deleting the last hunk of an incomplete band is a legal state.",
    "DESIGN.md 5 C10"),
  "C06": ("exploration",
-   "schedule exploration under a deterministic scheduler that owns every storage operation of both actors (verif_hooks interceptor): bounded-preemption enumeration over switch points derived from solo traces + generated random schedules, inside a property-based scenario generator that constructs the hazard",
+   "schedule exploration under a deterministic scheduler that owns every storage operation of both actors (verif_hooks interceptor): bounded-preemption enumeration over switch points derived from solo traces + generated random schedules + one injected storage error per run in either actor, both values of break_lock, inside a property-based scenario generator that constructs the hazard",
    "The harness parks each actor (its own OS thread and runtime) before every storage operation and releases exactly one at a time, so an execution is a pure function of the schedule value, which is enumerated (all <=2-switch schedules over the bracketing points of every lock/list/mutating operation, all 3-switch schedules over the critical points) and generated (random segment lists). Scenarios are built so that garbage blocks reappear in the new source. Exploration, not model checking: the bound and the point selection are stated, not exhaustive.",
    "Sequentially consistent storage, atomic transport operations; S3-style eventual consistency is out of reach.",
    "DESIGN.md 5 C06"),
  "C07": ("exploration",
-   "logged-trace invariant over generated histories (every storage operation with the pre-state of its path, directory bytes before/after) + deterministic-scheduler race of two backups with enumerated <=2-switch and generated schedules + direct transport contract probe",
+   "logged-trace invariant over generated histories (every storage operation with the pre-state of its path, directory bytes before/after) + deterministic-scheduler races (two backups, also with one failing block write or one racer killed at a block write; two deletes/gcs judged from the trace) with enumerated <=2-switch and generated schedules + direct transport contract probe incl. overlapping CreateNew writers",
    "Write-once is checked three ways: the directory's bytes before and after every step of generated histories, the logged operation stream (no write to a non-empty path, no double write, no remove during backup; removals of delete/gc confined to what the independent scan allows), and races of two backups of differing sources in which every version must be written by one actor only.",
    "Transport-operation granularity; sequentially consistent local storage.",
    "DESIGN.md 5 C07"),
